@@ -66,6 +66,9 @@ Corpus ==
     \* an expression that ends in the closing brace of a hash, directly before the closing delimiter in the tight layout
     condhash |-> ("main" :> <<Sym(1), PrintS(Cond(Var("x"), LI(5), Hash(<<LS(NT.a)>>, <<LI(1)>>))), Sym(2), Set("h", Hash(<<LS(NT.a)>>, <<Hash(<<LS(NT.b)>>, <<LI(6)>>)>>)), Sym(3),
                                PrintS(Attr(Attr(Var("h"), "a"), "b"))>>),
+    \* print tags whose expression begins and ends with a string literal (one quote kind)
+    strcat  |-> ("main" :> <<Sym(1), PrintS(Bin("~", LS(<<97>>), LS(<<98>>))), Sym(2), PrintS(Cond(LS(<<121>>), LS(<<84>>), LS(<<70>>))), Sym(3),
+                             PrintS(Bin("~", Bin("~", LS(<<97>>), Var("x")), LS(<<99>>))), If1(Bin("==", LS(<<120>>), LS(<<120>>)), <<Sym(4)>>)>>),
     printnum |-> ("main" :> <<Sym(1), PrintS(LI(42)), Sym(2), PrintS(LI(7)), Sym(3), If1(LI(1), <<Sym(4)>>)>>)
   ]
 Ctx == ("x" :> VI(3)) @@ ("s" :> VS(<<97>>)) @@ ("ID" :> VI(11)) @@ ("id" :> VI(12)) @@ ("Class" :> VI(13)) @@ ("userName" :> VI(14)) @@ ("username" :> VI(15)) @@ ("A" :> VI(16))
